@@ -1,5 +1,5 @@
 import random
-from math import ceil, floor
+from math import ceil, floor, isinf
 from typing import Any, List, Sequence, TypeVar, cast
 
 from niltype import Nil, Nilable
@@ -22,6 +22,9 @@ class Random:
             raise ValueError("random_float: start must be <= end")
 
         if precision is Nil:
+            if isinf(end - start):
+                # the width of the range is not a finite float: uniform() would return inf or nan
+                return random.uniform(start / 2, end / 2) * 2
             return random.uniform(start, end)
 
         scale_factor = 10 ** precision
